@@ -793,4 +793,53 @@ theorem decodeCoins_singleton_big (c : Coin) (h : 2 ^ 64 ≤ (encodeCoin c).leng
   rw [encodeCoins_cons]
   simp only [List.length_cons, decodeCoinsAux, decodeLenPrefixed_lenPrefixed_big _ _ h]
 
+/-! ### flat structs of length-delimited fields -/
+
+theorem fieldKey_small (num : Nat) (h : num < 16) : fieldKey num 2 = [num * 8 + 2] := by
+  unfold fieldKey; exact uvarint_small (by omega)
+
+/-- what `encodeFields` starts with: nothing, or the key of a field at or after `num` -/
+theorem encodeFields_head (num : Nat) (fs : List Bytes) (h : num + fs.length ≤ 16) :
+    encodeFields num fs = [] ∨ ∃ j t, num ≤ j ∧ j < 16 ∧ encodeFields num fs = (j * 8 + 2) :: t := by
+  induction fs generalizing num with
+  | nil => left; rfl
+  | cons b rest ih =>
+    simp only [List.length_cons] at h
+    unfold encodeFields
+    by_cases hb : b.isEmpty = true
+    · simp only [hb, if_true, List.nil_append]
+      rcases ih (num + 1) (by omega) with e | ⟨j, t, h1, h2, e⟩
+      · left; exact e
+      · right; exact ⟨j, t, by omega, h2, e⟩
+    · right
+      simp only [hb, Bool.false_eq_true, if_false]
+      rw [fieldKey_small num (by omega)]
+      exact ⟨num, lenPrefixed b ++ encodeFields (num + 1) rest, Nat.le_refl _, by omega, by simp⟩
+
+theorem decodeFields_encodeFields (num : Nat) (fs : List Bytes) (h : num + fs.length ≤ 16)
+    (hl : ∀ b ∈ fs, b.length < 2 ^ 64) : decodeFields num fs.length (encodeFields num fs) = some fs := by
+  induction fs generalizing num with
+  | nil => simp [encodeFields, decodeFields]
+  | cons b rest ih =>
+    simp only [List.length_cons] at h
+    have ih' := ih (num + 1) (by omega) (fun x hx => hl x (by simp [hx]))
+    simp only [List.length_cons]
+    by_cases hb : b.isEmpty = true
+    · have hb' : b = [] := List.isEmpty_iff.1 hb
+      subst hb'
+      have e : encodeFields num ([] :: rest) = encodeFields (num + 1) rest := by simp [encodeFields]
+      rw [e]
+      rcases encodeFields_head (num + 1) rest (by omega) with e0 | ⟨j, t, h1, h2, e1⟩
+      · rw [e0] at ih' ⊢
+        simp only [decodeFields, ih', Option.map_some]
+      · rw [e1] at ih' ⊢
+        have hne : ¬ (j * 8 + 2 = num * 8 + 2) := by omega
+        simp only [decodeFields, hne, if_false, ih', Option.map_some]
+    · have hb2 : b.isEmpty = false := by simpa using hb
+      have e : encodeFields num (b :: rest) = (num * 8 + 2) :: (lenPrefixed b ++ encodeFields (num + 1) rest) := by
+        simp [encodeFields, hb2, fieldKey_small num (by omega)]
+      rw [e]
+      have h1 := decodeLenPrefixed_lenPrefixed b (encodeFields (num + 1) rest) (hl b (by simp))
+      simp only [decodeFields, if_true, h1, hb2, Bool.false_eq_true, if_false, ih', Option.map_some]
+
 end Posmint.Codec
